@@ -89,7 +89,7 @@ func pathString(p []any) string {
 
 // ---- targets ----
 
-const numMTargets = 14
+const numMTargets = 15
 
 func mTarget(k int) (jp.Expr, []vref.PFrag, string) {
 	ix := func() int { return vx.IntIn("i", 0, 4) }
@@ -127,6 +127,18 @@ func mTarget(k int) (jp.Expr, []vref.PFrag, string) {
 	case 13:
 		i, j := ix(), ix()
 		return jp.R().U(i, j).U("k", "x"), []vref.PFrag{{Kind: vref.FUnion, Union: []any{i, j}}, {Kind: vref.FUnion, Union: []any{"k", "x"}}}, "$[i,j]['k','x']"
+	case 14:
+		// a filter below a wildcard: the part before the filter also matches scalars
+		c := int64(vx.IntIn("fc", 0, 9))
+		pred := func(v any) bool {
+			m, ok := v.(map[string]any)
+			if !ok {
+				return false
+			}
+			x, ok := m["x"].(int64)
+			return ok && x > c
+		}
+		return jp.R().W().F(jp.Gt(jp.Get(jp.A().C("x")), jp.ConstInt(c))), []vref.PFrag{{Kind: vref.FWild}, {Kind: vref.FFilter, Filter: pred}}, "$[*][?(@.x>c)]"
 	case 11:
 		c := int64(vx.IntIn("fc", 0, 9))
 		pred := func(v any) bool {
@@ -146,6 +158,17 @@ func mTarget(k int) (jp.Expr, []vref.PFrag, string) {
 type mHit struct {
 	path string
 	val  any
+}
+
+// topLevel: "$.x" or "$[3]" (a member of the document root).
+func topLevel(path string) bool {
+	n := 0
+	for i := 1; i < len(path); i++ {
+		if path[i] == '.' || path[i] == '[' {
+			n++
+		}
+	}
+	return n == 1
 }
 
 // expectedHits: the outermost locations the targets select, in document order.
@@ -207,12 +230,16 @@ func VerifC17_Match() {
 		targets = append(targets, t)
 		frags = append(frags, rf)
 		desc += d + " "
-		if tk == 11 {
+		if tk == 11 || tk == 14 {
 			filters = append(filters, i)
 		}
 	}
 	// 0: oj.Match on []byte, 1: oj.MatchLoad 1-byte reads, 2: sen.Match, 3: sen.MatchLoad 1-byte reads, 4: oj.MatchLoad split in two
-	load := vx.Choose("load", 4+vx.Param("SPLIT", 0))
+	nload := 4 + vx.Param("SPLIT", 0)
+	if nt == 2 {
+		nload = vx.Param("NT2LOADS", nload) // quick: two targets through oj.Match only
+	}
+	load := vx.Choose("load", nload)
 	doc := mDoc(dk)
 	vx.Key("doc", dk)
 	vx.Key("targets", desc)
@@ -255,6 +282,27 @@ func VerifC17_Match() {
 		for i := range got {
 			ok = ok && got[i].path == want[i].path && vref.TreeEqual(got[i].val, want[i].val)
 		}
+	}
+	if !ok {
+		// label: was a scalar member of the document root, selected by some
+		// target, not reported? (it cannot lie inside a container that a
+		// filter target collects)
+		lost := false
+		for _, w := range want {
+			switch w.val.(type) {
+			case []any, map[string]any:
+				continue
+			}
+			if !topLevel(w.path) {
+				continue
+			}
+			seen := false
+			for _, g := range got {
+				seen = seen || g.path == w.path
+			}
+			lost = lost || !seen
+		}
+		vx.Key("lost-root-scalar", lost)
 	}
 	vx.Assert("callbacks-equal-parse-then-select", ok)
 	vx.Cover("some", len(want) > 0)
